@@ -676,3 +676,249 @@ func infeasibleEdge(b *ssa.BasicBlock, si int) bool {
 	}
 	return si == 0
 }
+
+// DeepSources walks backwards like Sources but additionally through array/slice literals (a load
+// of an element of a locally built array sees every value stored into it, also via range and
+// variadic slices), string concatenation, field loads of local struct variables, and calls for
+// which through(c) returns the argument indices that flow into the result. It returns the root
+// values and the calls passed through.
+func DeepSources(v ssa.Value, through func(*ssa.Call) []int) (roots []ssa.Value, passed []*ssa.Call) {
+	seen := map[ssa.Value]bool{}
+	var walk func(x ssa.Value)
+	allocStores := func(a *ssa.Alloc) bool {
+		found := false
+		refs := a.Referrers()
+		if refs == nil {
+			return false
+		}
+		for _, r := range *refs {
+			switch t := r.(type) {
+			case *ssa.Store:
+				if t.Addr == ssa.Value(a) {
+					found = true
+					walk(t.Val)
+				}
+			case *ssa.IndexAddr:
+				if ir := t.Referrers(); ir != nil {
+					for _, s := range *ir {
+						if st, ok := s.(*ssa.Store); ok && st.Addr == ssa.Value(t) {
+							found = true
+							walk(st.Val)
+						}
+					}
+				}
+			case *ssa.FieldAddr:
+				if ir := t.Referrers(); ir != nil {
+					for _, s := range *ir {
+						if st, ok := s.(*ssa.Store); ok && st.Addr == ssa.Value(t) {
+							found = true
+							walk(st.Val)
+						}
+					}
+				}
+			}
+		}
+		return found
+	}
+	// containerAlloc finds the local array behind a slice/array value
+	var containerAlloc func(x ssa.Value, d int) *ssa.Alloc
+	containerAlloc = func(x ssa.Value, d int) *ssa.Alloc {
+		if d > 6 {
+			return nil
+		}
+		switch t := x.(type) {
+		case *ssa.Alloc:
+			return t
+		case *ssa.Slice:
+			return containerAlloc(t.X, d+1)
+		case *ssa.ChangeType:
+			return containerAlloc(t.X, d+1)
+		case *ssa.Phi:
+			for _, e := range t.Edges {
+				if a := containerAlloc(e, d+1); a != nil {
+					return a
+				}
+			}
+		}
+		return nil
+	}
+	walk = func(x ssa.Value) {
+		if x == nil || seen[x] {
+			return
+		}
+		seen[x] = true
+		switch t := x.(type) {
+		case *ssa.Phi:
+			for _, e := range t.Edges {
+				walk(e)
+			}
+		case *ssa.ChangeType:
+			walk(t.X)
+		case *ssa.ChangeInterface:
+			walk(t.X)
+		case *ssa.MakeInterface:
+			walk(t.X)
+		case *ssa.Convert:
+			walk(t.X)
+		case *ssa.Slice:
+			if a := containerAlloc(t.X, 0); a != nil {
+				if allocStores(a) {
+					return
+				}
+			}
+			walk(t.X)
+		case *ssa.TypeAssert:
+			walk(t.X)
+		case *ssa.BinOp:
+			if t.Op == token.ADD {
+				walk(t.X)
+				walk(t.Y)
+				return
+			}
+			roots = append(roots, x)
+		case *ssa.Extract:
+			if nx, ok := t.Tuple.(*ssa.Next); ok {
+				if rg, ok := nx.Iter.(*ssa.Range); ok {
+					walk(rg.X)
+					return
+				}
+			}
+			if c, ok := t.Tuple.(*ssa.Call); ok && through != nil {
+				if idx := through(c); idx != nil {
+					passed = append(passed, c)
+					args := CallArgs(c)
+					for _, i := range idx {
+						if i < len(args) {
+							walk(args[i])
+						}
+					}
+					return
+				}
+			}
+			roots = append(roots, x)
+		case *ssa.Call:
+			if through != nil {
+				if idx := through(t); idx != nil {
+					passed = append(passed, t)
+					args := CallArgs(t)
+					for _, i := range idx {
+						if i < len(args) {
+							walk(args[i])
+						}
+					}
+					return
+				}
+			}
+			roots = append(roots, x)
+		case *ssa.Field:
+			// field of a struct value: if the struct is a load of a local, look at stores to that field
+			if u, ok := t.X.(*ssa.UnOp); ok && u.Op == token.MUL {
+				if a, ok := u.X.(*ssa.Alloc); ok {
+					found := false
+					if refs := a.Referrers(); refs != nil {
+						for _, r := range *refs {
+							if fa, ok := r.(*ssa.FieldAddr); ok && fa.Field == t.Field {
+								if fr := fa.Referrers(); fr != nil {
+									for _, s := range *fr {
+										if st, ok := s.(*ssa.Store); ok && st.Addr == ssa.Value(fa) {
+											found = true
+											walk(st.Val)
+										}
+									}
+								}
+							}
+						}
+					}
+					if found {
+						return
+					}
+				}
+			}
+			roots = append(roots, x)
+		case *ssa.UnOp:
+			if t.Op == token.MUL {
+				switch a := t.X.(type) {
+				case *ssa.Alloc:
+					if allocStores(a) {
+						return
+					}
+				case *ssa.IndexAddr:
+					if al := containerAlloc(a.X, 0); al != nil {
+						if allocStores(al) {
+							return
+						}
+					}
+				case *ssa.FieldAddr:
+					// field of a local struct variable
+					if al, ok := a.X.(*ssa.Alloc); ok {
+						found := false
+						if refs := al.Referrers(); refs != nil {
+							for _, r := range *refs {
+								if fa, ok := r.(*ssa.FieldAddr); ok && fa.Field == a.Field {
+									if fr := fa.Referrers(); fr != nil {
+										for _, s := range *fr {
+											if st, ok := s.(*ssa.Store); ok && st.Addr == ssa.Value(fa) {
+												found = true
+												walk(st.Val)
+											}
+										}
+									}
+								}
+							}
+						}
+						if found {
+							return
+						}
+					}
+				}
+			}
+			roots = append(roots, x)
+		default:
+			roots = append(roots, x)
+		}
+	}
+	walk(v)
+	return
+}
+
+// ReturnValue returns operand idx of a return, looking through the result spill that go/ssa
+// introduces in functions with defer: `*res = v; rundefers; t = *res; return t` yields v.
+func ReturnValue(ret *ssa.Return, idx int) ssa.Value {
+	v := ret.Results[idx]
+	u, ok := v.(*ssa.UnOp)
+	if !ok || u.Op != token.MUL {
+		return v
+	}
+	a, ok := u.X.(*ssa.Alloc)
+	if !ok {
+		return v
+	}
+	// latest store to a: walk backwards in this block, then up single-predecessor chains
+	b := ret.Block()
+	start := len(b.Instrs) - 1
+	for depth := 0; depth < 8 && b != nil; depth++ {
+		for i := start; i >= 0; i-- {
+			if st, ok := b.Instrs[i].(*ssa.Store); ok && st.Addr == ssa.Value(a) {
+				return st.Val
+			}
+		}
+		if len(b.Preds) != 1 {
+			break
+		}
+		b = b.Preds[0]
+		start = len(b.Instrs) - 1
+	}
+	return v
+}
+
+// ReturnError returns the (unspilled) last operand of a return if it is of type error.
+func ReturnError(ret *ssa.Return) ssa.Value {
+	if len(ret.Results) == 0 {
+		return nil
+	}
+	v := ReturnValue(ret, len(ret.Results)-1)
+	if v.Type().String() != "error" {
+		return nil
+	}
+	return v
+}
